@@ -206,6 +206,52 @@ extern "C" int harness_main() {
   verif_reach("kinds"); verif_obs((long)state.edges_.size());
   return 0;
 }
+#elif defined(MODE_ATTRS)
+// the per-statement attributes ninja itself reads (dyndep, depfile, deps, restat, generator, description, pool) follow the same lookup order as
+// every variable: build block, rule, file, including file.  Each attribute is bound in exactly one of those places (no shadowing here: that is
+// what MODE_SCOPING is for); the statement has or has not an indented block of its own.
+extern "C" int harness_main() {
+  ir2c_global_ctors();
+  static const char* kVar[] = { "dyndep", "depfile", "deps", "restat", "generator", "description", "pool" };
+  static const char* kVal[] = { "dd", "o.d", "gcc", "1", "1", "Desc", "p" };
+  int v = verif_choice("attribute", 7);
+  int scope = verif_choice("bound_in", v == 6 ? 2 : 4);       // 0 build block, 1 rule, 2 file, 3 the file that subninja-includes the statement's file ('pool' is a keyword at file level)
+  bool own_block = verif_bool("statement_has_a_block"), crlf = verif_bool("crlf"), dd_is_input = verif_bool("dyndep_file_is_an_input");
+  std::string bind = std::string(kVar[v]) + " = " + kVal[v] + "\n";
+  std::string rule = "pool p\n  depth = 2\nrule r\n  command = c\n" + (scope == 1 ? "  " + bind : std::string());
+  std::string stmt = std::string("build o: r i") + (dd_is_input ? " || dd" : "") + "\n" + (scope == 0 ? "  " + bind : std::string()) + (own_block ? "  unrelated = 1\n" : "");
+  std::string m, child;
+  if (scope == 3) { m = bind + "subninja sub/sub.ninja\n"; child = rule + stmt; }
+  else m = (scope == 2 ? bind : std::string()) + rule + stmt;
+  if (crlf) { std::string t; for (size_t i = 0; i < m.size(); i++) { if (m[i] == '\n') t += '\r'; t += m[i]; } m = t; t.clear(); for (size_t i = 0; i < child.size(); i++) { if (child[i] == '\n') t += '\r'; t += child[i]; } child = t; }
+  g_main = m; g_inc = child;
+  State state; FR fr; std::string err; ManifestParser mp(&state, &fr);
+  bool ok = mp.Load("build.ninja", &err);
+  if (v == 0 && !dd_is_input) {
+    VERIF_ASSERT(!ok && err.find("dyndep 'dd' is not an input") != std::string::npos, "C12: a dyndep binding that does not name an input of the statement is rejected, wherever it is bound");
+    verif_reach("rejected"); return 0;
+  }
+  VERIF_ASSERT(ok, "C12: a manifest following the documented grammar is accepted");
+  if (!ok) return 0;
+  Edge* e = edge_for(&state, "o");
+  VERIF_ASSERT(e != NULL, "C12: the statement produced its edge");
+  if (!e) return 0;
+  bool got = false;
+  switch (v) {
+    case 0: got = e->dyndep_ && e->dyndep_->path() == "dd" && e->dyndep_->dyndep_pending(); break;
+    case 1: got = e->GetUnescapedDepfile() == "o.d"; break;
+    case 2: got = e->GetBinding("deps") == "gcc"; break;
+    case 3: got = e->GetBindingBool("restat"); break;
+    case 4: got = e->GetBindingBool("generator"); break;
+    case 5: got = e->GetBinding("description") == "Desc"; break;
+    case 6: got = e->pool() && e->pool()->name() == "p" && e->pool()->depth() == 2; break;
+  }
+  VERIF_ASSERT(got, "C12: a statement attribute (dyndep, depfile, deps, restat, generator, description, pool) is looked up build block, rule, file, including file");
+  if (v != 0) VERIF_ASSERT(e->dyndep_ == NULL, "C12: a statement without a dyndep binding has none");
+  if (v != 6) VERIF_ASSERT(e->pool() && e->pool()->name().empty(), "C12: a statement without a pool binding is in the default pool");
+  verif_reach(scope == 0 ? "build-block" : scope == 1 ? "rule" : scope == 2 ? "file" : "parent-file"); verif_obs(v * 10 + scope);
+  return 0;
+}
 #else
 // manifests that break a documented constraint are rejected with a file:line diagnostic; the valid neighbours are accepted
 extern "C" int harness_main() {
